@@ -250,7 +250,9 @@ pub fn src_layout(kind: SrcKind, sc: usize, sr: usize) -> ((usize, usize), Win) 
 pub type Obs = Vec<(usize, usize)>;
 
 fn take<T>(vals: &mut VecDeque<T>) -> T {
-    vals.pop_front().expect("harness: value supply exhausted")
+    // running dry means the real operation visited more items than the ideal sequence has (the supply
+    // is sized generously above the model's needs): that is evidence about toodee, not a harness error
+    vals.pop_front().expect("monitor: the operation visited more items than the ideal sequence contains (value supply exhausted)")
 }
 
 /// Apply `op` to the real receiver. Runs inside catch_unwind at the call site.
